@@ -47,7 +47,15 @@ type MyCfgCol struct {
 	Role     string `json:"role"` // plain | enc | str | bytes | int32 | int64
 	Envelope string `json:"envelope,omitempty"`
 	Default  string `json:"default,omitempty"` // default_data_value (response_on_fail: default_value) for typed roles
+	// OnFail is the response_on_fail policy of a typed role: "" = default_value with Default, "ciphertext" = ciphertext
+	// written out, "unset" = neither response_on_fail nor default_data_value (the loader's default policy: ciphertext)
+	OnFail string `json:"on_fail,omitempty"`
 }
+
+// keepsCiphertext tells whether a value of the column that cannot be revealed is handed over as it is stored.
+func (c MyCfgCol) keepsCiphertext() bool { return c.OnFail == "ciphertext" || c.OnFail == "unset" }
+
+func (c MyCfgCol) intRole() bool { return c.Role == "int32" || c.Role == "int64" }
 
 // MyOp is one command and its scripted response.
 type MyOp struct {
@@ -466,6 +474,9 @@ type spkt struct {
 	rowSet  *setInfo
 	expCol  *mysess.ColumnDef // column definition the proxy may re-type
 	colRole string
+	// the result set holds a value of this column that cannot be revealed under the ciphertext policy: the definition
+	// may keep (be rolled back to) the database's type
+	mayKeepType bool
 	// client side: how the database must see this packet
 	insert *insertInfo
 }
@@ -482,6 +493,9 @@ type expCell struct {
 type setInfo struct {
 	dbTypes []byte
 	roles   []string
+	// mixedInt: a binary result set with an integer column under the ciphertext policy that holds both rows delivered as
+	// integers and rows kept as stored (see mixedIntColumn)
+	mixedInt bool
 }
 
 type insertInfo struct {
@@ -613,6 +627,14 @@ func expectCell(cfg MyCfgCol, cell MyCell, dbVal []byte, binary bool) expCell {
 		return expCell{exact: false, cls: "empty-in-integer-column"}
 	case len(dbVal) == 0:
 		return expCell{exact: true, b: []byte{}, cls: "empty"}
+	case typed && cfg.keepsCiphertext() && !intParses(cfg, dbVal):
+		// a stored value that cannot be revealed under the ciphertext policy: handed over as it is stored. (In the binary
+		// protocol an integer column can do that only under the database's own column type: the row must re-parse against
+		// the definitions the client received, whichever type they announce.)
+		if intRole {
+			return expCell{exact: true, b: dbVal, cls: clsKeptInt}
+		}
+		return expCell{exact: true, b: dbVal, cls: "ciphertext-kept"}
 	case typed:
 		// a stored value that does not decrypt: the configured default value replaces it
 		if intRole {
@@ -636,6 +658,50 @@ func expectCell(cfg MyCfgCol, cell MyCell, dbVal []byte, binary bool) expCell {
 	return expCell{exact: true, b: dbVal, cls: "unchanged"}
 }
 
+const clsKeptInt = "ciphertext-kept-in-integer-column"
+
+// intParses tells whether a stored value is the decimal text of an integer of the column's width (such a value is
+// converted like a revealed one whether it was decrypted or not).
+func intParses(cfg MyCfgCol, dbVal []byte) bool {
+	bits := 32
+	switch cfg.Role {
+	case "int32":
+	case "int64":
+		bits = 64
+	default:
+		return false
+	}
+	_, err := strconv.ParseInt(string(dbVal), 10, bits)
+	return err == nil
+}
+
+// cellFate tells what becomes of a cell of an integer column under the ciphertext policy: "int" = delivered as an
+// integer (revealed, or stored as decimal text), "kept" = cannot be revealed and is handed over as stored, "" = NULL /
+// empty / another kind of column.
+func cellFate(cfg MyCfgCol, cell MyCell) string {
+	if !cfg.intRole() || !cfg.keepsCiphertext() || cell.Null || cell.B.N == 0 {
+		return ""
+	}
+	if cell.Prot != "" || intParses(cfg, cell.B.Bytes()) {
+		return "int"
+	}
+	return "kept"
+}
+
+// mixedIntColumn tells whether column i of a binary result set is an integer column under the ciphertext policy whose
+// rows are partly delivered as integers and partly kept as stored: one column definition cannot describe both encodings
+// (open finding of C19, malformed-row:binary:integer-column-with-revealed-and-ciphertext-rows). The generator never
+// builds this shape; a hand-written case that has it is named by its own signature.
+func mixedIntColumn(cfg MyCfgCol, rows [][]MyCell, i int) bool {
+	fates := map[string]bool{}
+	for _, row := range rows {
+		if i < len(row) {
+			fates[cellFate(cfg, row[i])] = true
+		}
+	}
+	return fates["int"] && fates["kept"]
+}
+
 func (c MyCase) cfgOf(col MyCol) (MyCfgCol, bool) {
 	if col.Cfg >= 0 && col.Cfg < len(c.Schema) {
 		return c.Schema[col.Cfg], true
@@ -653,7 +719,7 @@ func (c MyCase) renderSet(w *world, s MySet, binary bool, last bool, trailing bo
 	add(spkt{payload: mysess.AppendLenEncInt(nil, uint64(len(s.Cols))), label: tag + "column-count"})
 	info := &setInfo{}
 	configured := false
-	for _, col := range s.Cols {
+	for ci, col := range s.Cols {
 		d := col.def()
 		p := spkt{payload: d.Encode(), label: tag + "column-def"}
 		cfg, ok := c.cfgOf(col)
@@ -664,6 +730,16 @@ func (c MyCase) renderSet(w *world, s MySet, binary bool, last bool, trailing bo
 			if _, typed := roleType(cfg.Role); typed {
 				dd := d
 				p.expCol, p.colRole = &dd, cfg.Role
+				if cfg.keepsCiphertext() {
+					for _, row := range s.Rows {
+						if ci < len(row) && !row[ci].Null && row[ci].Prot == "" && row[ci].B.N > 0 && !intParses(cfg, row[ci].B.Bytes()) {
+							p.mayKeepType = true
+						}
+					}
+				}
+			}
+			if binary && mixedIntColumn(cfg, s.Rows, ci) {
+				info.mixedInt = true
 			}
 		}
 		add(p)
@@ -969,7 +1045,13 @@ func schemaYAML(schema []MyCfgCol) string {
 		if c.Envelope != "" {
 			fmt.Fprintf(&b, "        crypto_envelope: %s\n", c.Envelope)
 		}
-		if c.Role != "enc" {
+		switch {
+		case c.Role == "enc":
+		case c.OnFail == "ciphertext":
+			fmt.Fprintf(&b, "        data_type: %s\n        response_on_fail: ciphertext\n", c.Role)
+		case c.OnFail == "unset":
+			fmt.Fprintf(&b, "        data_type: %s\n", c.Role)
+		default:
 			fmt.Fprintf(&b, "        data_type: %s\n        response_on_fail: default_value\n        default_data_value: %s\n", c.Role, strconv.Quote(c.Default))
 		}
 	}
@@ -1342,6 +1424,15 @@ func (c MyCase) classes(cl classSet) {
 		cl.add("caps-low-byte:is-a-command-byte(0x%02x)", low)
 	default:
 		cl.add("caps-low-byte:other")
+	}
+	for _, cfg := range c.Schema {
+		if _, typed := roleType(cfg.Role); typed {
+			policy := cfg.OnFail
+			if policy == "" {
+				policy = "default_value"
+			}
+			cl.add("cfg:%s/on-fail=%s", cfg.Role, policy)
+		}
 	}
 	for _, op := range c.Ops {
 		cl.add("op:%s/%s", op.Kind, op.Resp.Kind)
